@@ -959,17 +959,17 @@ fn scenario(args: &Args, dir: &std::path::Path, out: &mut Out, ex: &mut Extra) {
         };
         // honest local child
         for i in 0..2 { local_sync(&mut w, out, "loc", "loc", &format!("honest local child, sync {i}")); }
+        // F12a (fixed by /repo 1a6ebc01): mallory was never added as a child; her administrator stores the parent
+        // response of c2. She must be refused, with no change at the parent.
+        let resp = parent_responses.get("c2").expect("c2 response").clone();
+        w.sys.krill.ca_manager().ca_parent_add_or_update(ca_handle("mallory"), ParentCaReq { handle: parent_handle(PAR), response: resp }, &w.sys.actor, &w.sys.krill).expect("mallory stores a parent contact naming c2");
+        for i in 0..3 { local_sync(&mut w, out, "mallory", "c2", &format!("CA 'mallory' (no child of 'par') with a stored parent contact naming child handle 'c2', sync {i}")); }
         // identity update at a local child: refused until the parent is given the new ID certificate (as on the remote path)
         w.sys.krill.ca_manager().ca_update_id(ca_handle("loc"), &w.sys.actor, &w.sys.krill).expect("loc id update");
         local_sync(&mut w, out, "loc", "loc", "local child after ca_update_id, the parent still has the previous ID certificate");
         let idc = w.sys.ca("loc").unwrap().child_request().validate().expect("loc id cert");
         w.sys.krill.ca_manager().ca_child_update(&ca_handle(PAR), child_handle("loc"), UpdateChildRequest::id_cert(idc), &w.sys.actor, &w.sys.krill).expect("loc id at parent");
         local_sync(&mut w, out, "loc", "loc", "local child after ca_update_id, the parent now has the new ID certificate");
-        // F12a (fixed by /repo 1a6ebc01): mallory was never added as a child; her administrator stores the parent
-        // response of c2. She must be refused, with no change at the parent.
-        let resp = parent_responses.get("c2").expect("c2 response").clone();
-        w.sys.krill.ca_manager().ca_parent_add_or_update(ca_handle("mallory"), ParentCaReq { handle: parent_handle(PAR), response: resp }, &w.sys.actor, &w.sys.krill).expect("mallory stores a parent contact naming c2");
-        for i in 0..3 { local_sync(&mut w, out, "mallory", "c2", &format!("CA 'mallory' (no child of 'par') with a stored parent contact naming child handle 'c2', sync {i}")); }
     }
 
     // ---- probe (not a case): the publication shortcut serves a local CA as the publisher that carries its handle
